@@ -5,6 +5,8 @@ from props.common import default_encode, default_decode
 
 PROP = 'C14'
 BIN = 'c14'
+# dense digit-count pass (run.dense_table): width-dependent estimates (digit counts, exponents) make every width interesting here
+DENSE = {'quick': {64: 128}, 'thorough': {8: 1024, 16: 512, 32: 256}}
 SIG = {'tof': 'x', 'fromf': 'dd'}
 encode = default_encode(SIG)
 decode = default_decode(SIG)
@@ -260,3 +262,32 @@ def extra_passes(runmod, tier, seed, st, jobs):
     import aux
     me = __import__('props.c14', fromlist=['x'])
     return {'float_sweeps_vs_primitive': aux.float_sweeps(runmod, me, tier, seed, st, jobs)}
+
+
+def dense_requests(cfg, rng, n, st):
+    """dense digit-count pass: the bounds of this width in both directions — integers at the top of the range whose dropped part is below / at /
+    above one half (the exponent and the infinity threshold depend on BITS), and floats at 2^(BITS-1), 2^BITS and one ulp around them"""
+    b = cfg.bits
+    top = b - (1 if cfg.signed else 0)
+    for v in (cfg.max, cfg.min, cfg.max - 1, 1 << (top - 1), (1 << (top - 1)) - 1, (1 << (top - 1)) + 1):
+        yield 'tof', (cfg.wrap(v) if cfg.min <= v <= cfg.max else cfg.max,)
+    for fmt in (F32, F64):
+        prec = fmt[1] + 1
+        if top > prec + 1:
+            shift = top - prec
+            half = 1 << (shift - 1)
+            for mant in ((1 << prec) - 1, (1 << prec) - 2, (1 << (prec - 1)) | 1):
+                for rem in (half, half - 1, half + 1, 0, (1 << shift) - 1):
+                    v = (mant << shift) | rem
+                    yield 'tof', (cfg.wrap(v),)
+                    if cfg.signed:
+                        yield 'tof', (cfg.wrap(-v),)
+    for k in (b - 2, b - 1, b, b + 1):
+        for d in (0, -1, 1):
+            pair = []
+            for (ebits, mbits, _) in (F32, F64):
+                bias = (1 << (ebits - 1)) - 1
+                kk = min(k, bias)
+                pair.append((((kk + bias) << mbits) + d) & ((1 << (ebits + mbits)) - 1))
+            for sg in (0, 1):
+                yield 'fromf', (pair[0] | (sg << 31), pair[1] | (sg << 63))
